@@ -187,6 +187,30 @@ def strategy_(draw, tier):
                   'kw': {'a': {'leaf': 'uidR'}, 'b': recipe['root'], 'c': len(nodes) - 1,
                          **({'d': ci} if draw(st.booleans()) else {})}, 'edits': []})
     recipe['root'] = len(nodes) - 1
+  if api.startswith('graphviz.render_diff_trim') and draw(st.booleans()):
+    # a dict-subclass leaf (not traversed by daglish) directly under the root
+    nodes = recipe['nodes']
+    root = nodes[recipe['root']]
+    if root['k'] == 'B' and root['fn'].get('name') in dags.SIMPLE:
+      nodes.insert(recipe['root'], {'k': 'odict', 'keys': ['warmup', 'decay'], 'vals': [10, {'$f': '0.5'}]})
+      oi = recipe['root']
+      recipe['root'] += 1
+      root['kw'][dags.SIMPLE[root['fn']['name']][1][-1]] = oi
+  if api.endswith('_sub_fixtures') and draw(st.booleans()):
+    # a node with a tagged, valued argument shared by two sub-fixtures (the root's arguments)
+    nodes = recipe['nodes']
+    mk = lambda fn, **kw: {'k': 'B', 'bt': 'Config', 'fn': {'kind': 'sym', 'name': fn}, 'pos': [], 'kw': kw, 'edits': []}
+    s_node = mk('things:f2', x={'leaf': 'uidS'}, y={'leaf': draw(st.integers(0, 9))})
+    s_node['tags'] = [['y', draw(st.sampled_from(['TagA', 'TagX']))]]
+    nodes.append(s_node)
+    si = len(nodes) - 1
+    nodes.append(mk('things:f2', x={'leaf': 'uidL'}, child=si))
+    nodes.append(mk('things:Base', x={'leaf': 'uidR'}, child=si))
+    kw = {'a': {'leaf': 'uidT'}, 'b': si + 1, 'c': si + 2}
+    if draw(st.booleans()):
+      kw['d'] = recipe['root']
+    nodes.append(mk('things:h1', **kw))
+    recipe['root'] = len(nodes) - 1
   return {'recipe': recipe, 'api': api}
 
 
